@@ -35,7 +35,8 @@ class Ctx:
         self.quick = tier == "quick"
         self.seed = seed
         self.rng = random.Random(seed)
-        self.work = os.path.join(VERIF, ".work", pid)
+        # VERIF_WORK_SUFFIX lets two runs of the same check (e.g. a development run next to a sweep) coexist
+        self.work = os.path.join(VERIF, ".work", pid + os.environ.get("VERIF_WORK_SUFFIX", ""))
         shutil.rmtree(self.work, ignore_errors=True)
         os.makedirs(self.work, exist_ok=True)
         self.t0 = time.time()
